@@ -135,7 +135,7 @@ pub fn run_c05(ctx: &Ctx) -> i32 {
         Finish {
             rule: "the C04 hostile corpus (field-directed, model-level inconsistencies aimed at every 'should have been caught by validate' site, nests of 3k-65k groups, unstructured); every input that loads Ok is walked: all documented accessors with in-range arguments in shuffled order on a 2 MiB thread in an isolated worker (optimised build: all bases; unoptimised build: a quarter); acceptable: normal return with documented dimensions; distinct = distinct (build, base, sub-input)".into(),
             coverage_extra: serde_json::Value::Object(extra),
-            assumptions: vec!["rendering is skipped (and counted) when the canvas or a tileset exceeds 4 Mpx so that the harness itself cannot exhaust memory; Debug output is cut off after 32 MB".into()],
+            assumptions: vec!["rendering is skipped (and counted) when the canvas or a tileset exceeds 4 Mpx so that the harness itself cannot exhaust memory (except Tileset::image of a tileset whose stacked height exceeds u32::MAX, which must not exist in a loaded sprite); Debug output is cut off after 32 MB".into()],
             exhaustive: false,
             min_evaluations: 1000,
         },
@@ -211,7 +211,7 @@ pub fn run_c12(ctx: &Ctx) -> i32 {
         &Ctx { level: "fault_enumeration", ..ctx.clone() },
         total,
         Finish {
-            rule: "for every generated base and corpus file: every len/count/size/index field inflated one at a time to each larger boundary value up to its type maximum; model-level inflations (declared w x h vs tiny payload for raw/zlib/tilemap/tileset, entry counts, 4 GiB chunk in 4 GiB frame, layer index 65535 across 200 frames, deflate bombs at ~1000:1 which must pass); release and checked builds; oracle: peak live heap and largest single request while loading <= 64 MiB + 8192*len; distinct = distinct (build, base, sub-input)".into(),
+            rule: "for every generated base and corpus file: every len/count/size/index field inflated one at a time to each larger boundary value up to its type maximum; model-level inflations (declared w x h vs tiny payload for raw/zlib/tilemap/tileset, entry counts, 4 GiB chunk in 4 GiB frame, layer index 65535 across 200 frames, deflate bombs at ~1000:1 which must pass), pairs of neighbouring declared sizes inflated together, a tall stack under an inflated frame count; release and checked builds; plus one probe that runs alone under a 44 GiB limit: the well-formed 65535-frame x 65536-layer sprite (bound 34.4 GB); oracle: peak live heap and largest single request while loading <= 64 MiB + 8192*len; distinct = distinct (build, base, sub-input)".into(),
             coverage_extra: serde_json::Value::Object(extra),
             assumptions: vec!["'live heap of the library' = all heap requests made between entering and leaving AsepriteFile::read on the measuring thread (the harness allocates nothing there)".into(), format!("exploration size cap {} bytes per input", cap)],
             exhaustive: false,
